@@ -52,6 +52,26 @@ func seqMsg(seq uint32, body int) []byte {
 	return refcodec.EncodeMessage(h, nodes)
 }
 
+// seqMsgMulti: a body of the given size made of OctetString AVPs of 1008 bytes
+// (the last one takes what is left).
+func seqMsgMulti(seq uint32, body int) []byte {
+	h := refcodec.Header{Version: 1, Flags: 0x80, Code: 8388000, App: 0, HopByHop: seq, EndToEnd: ^seq}
+	var nodes []*refcodec.Node
+	for left, k := body, 0; left > 0; k++ {
+		sz := 1008
+		if left < 1008+12 {
+			sz = left
+		}
+		b := make([]byte, sz-8)
+		for i := range b {
+			b[i] = byte(seq*31 + uint32(i)*7 + uint32(k))
+		}
+		nodes = append(nodes, &refcodec.Node{Code: 9001, Flags: 0x40, Kind: refcodec.OctetString, B: b})
+		left -= sz
+	}
+	return refcodec.EncodeMessage(h, nodes)
+}
+
 func bodySize(r interface{ IntN(int) int }, small bool) int {
 	if small {
 		return []int{0, 12, 16, 20, 24}[r.IntN(5)]
@@ -294,16 +314,25 @@ func TestC05(t *testing.T) {
 	// 2b. one body above the 64 KiB growth step of the body reader, placed
 	//     first, in the middle or last among small messages
 	bigs := []int{65532, 65536, 65540, 66000, 70000, 100000, 131072, 131076, 200000}
-	rec.Suite("big-bodies", len(bigs)*3*rec.N(2, 40), func(c *ev.Case) {
+	rec.Suite("big-bodies", len(bigs)*3*rec.N(4, 80), func(c *ev.Case) {
 		big := bigs[c.I%len(bigs)]
 		pos := (c.I / len(bigs)) % 3
 		var msgs [][]byte
 		n := 6 + c.R.IntN(20)
 		at := []int{0, n / 2, n - 1}[pos]
+		multi := (c.I/(len(bigs)*3))%2 == 1 // the big body is one AVP, or many AVPs of 1008 bytes
+		bigStart := 0
 		for i := 0; i < n; i++ {
 			b := bodySize(c.R, true)
 			if i == at {
 				b = big
+				for _, m := range msgs {
+					bigStart += len(m)
+				}
+				if multi {
+					msgs = append(msgs, seqMsgMulti(uint32(c.I*64+i+1), b))
+					continue
+				}
 			}
 			msgs = append(msgs, seqMsg(uint32(c.I*64+i+1), b))
 		}
@@ -311,7 +340,25 @@ func TestC05(t *testing.T) {
 		for _, m := range msgs {
 			total += len(m)
 		}
-		c.Class("big-body=%d/pos=%d", big, pos)
+		c.Class("big-body=%d/pos=%d/multi=%v", big, pos, multi)
+		// the stream may end inside the big message: on an AVP boundary of its body
+		// (nothing in the bytes delivered so far says that more should follow, only
+		// the declared length does) or anywhere else
+		if tr := c.R.IntN(4); tr >= 2 {
+			trunc := bigStart + 20 + 1008*c.R.IntN(big/1008+1)
+			if tr == 3 {
+				trunc = bigStart + c.R.IntN(20+big)
+			}
+			var cuts []int
+			if c.R.IntN(2) == 0 {
+				if cuts = randCuts(c, trunc); len(cuts) > 4000 {
+					cuts = nil
+				}
+			}
+			c.Class("big-body-truncated/multi=%v/avp-boundary=%v", multi, tr == 2)
+			checkStream(c, ctx, msgs, cuts, trunc, "big-truncated")
+			return
+		}
 		var cuts []int
 		if c.R.IntN(2) == 0 {
 			cuts = randCuts(c, total)
@@ -422,7 +469,9 @@ func TestC05(t *testing.T) {
 	rec.Suite("conn-concurrent", rec.N(300, 20000), func(c *ev.Case) {
 		r := c.R
 		K := 2 + r.IntN(3)
-		c.Class("conn-concurrent/K=%d", K)
+		closeNotify := c.I%2 == 1
+		bigFrags := (c.I/2)%2 == 1 // fragments of several KiB: pipelined bursts beyond the 4 KiB bufio buffer
+		c.Class("conn-concurrent/K=%d/close-notify=%v/big-fragments=%v", K, closeNotify, bigFrags)
 		type side struct {
 			mc   *memnet.Conn
 			msgs [][]byte
@@ -434,6 +483,9 @@ func TestC05(t *testing.T) {
 		for i := range sides {
 			sd := &side{mc: memnet.NewConn()}
 			nm := 2 + r.IntN(6)
+			if bigFrags {
+				nm += 6
+			}
 			var st []byte
 			for k := 0; k < nm; k++ {
 				b := []int{12, 100, 1000, 1024, 1028, 4096, 2000}[r.IntN(7)]
@@ -442,11 +494,18 @@ func TestC05(t *testing.T) {
 				st = append(st, m...)
 			}
 			streams = append(streams, st)
-			h := diam.HandlerFunc(func(_ diam.Conn, m *diam.Message) {
+			h := diam.HandlerFunc(func(dc diam.Conn, m *diam.Message) {
 				b, _ := m.Serialize()
 				sd.mu.Lock()
+				first := len(sd.got) == 0
 				sd.got = append(sd.got, b)
 				sd.mu.Unlock()
+				if first && closeNotify {
+					// from here on the connection's bytes pass through the CloseNotify pipe
+					if cn, ok := dc.(diam.CloseNotifier); ok {
+						cn.CloseNotify()
+					}
+				}
 			})
 			if _, err := diam.NewConn(sd.mc, "peer", h, ctx.Parser); err != nil {
 				c.Fail(ev.Sig{"op": "setup"}, nil, nil, "NewConn: %v", err)
@@ -460,7 +519,11 @@ func TestC05(t *testing.T) {
 			more = false
 			for i := range sides {
 				if off[i] < len(streams[i]) {
-					end := min(off[i]+17+r.IntN(60), len(streams[i]))
+					step := 17 + r.IntN(60)
+					if bigFrags {
+						step = 3000 + r.IntN(9000)
+					}
+					end := min(off[i]+step, len(streams[i]))
 					sides[i].mc.Feed(streams[i][off[i]:end])
 					off[i] = end
 					more = true
